@@ -104,6 +104,7 @@ type QRec struct {
 
 // ErrRec is one error reported through utilruntime.HandleError.
 type ErrRec struct {
+	Sim  time.Duration // simulated time since the start of the run
 	Seq  int
 	Step int
 	Inc  int
@@ -218,6 +219,8 @@ type World struct {
 	Plan         *FaultPlan
 	Interactions []byte // reference runs: 'A' / 'H' per in-sync interaction served while armed
 	OnCrash      func(w *World) *Violation
+	PanicSig     func(w *World) map[string]string // signature of a recovered worker panic (known-finding matching)
+	PanicProp    string
 	Stages       []Stage
 	ss           stageState
 	lastSig      int
@@ -397,7 +400,7 @@ func (w *World) ReportError(msg string) {
 	w.mu.Lock()
 	defer w.mu.Unlock()
 	w.arrivals++
-	w.Errs = append(w.Errs, ErrRec{Seq: w.arrivals, Step: w.step, Inc: w.inc, Gid: gid, Msg: msg, Time: time.Since(w.start)})
+	w.Errs = append(w.Errs, ErrRec{Sim: w.ss.clockBase + time.Since(w.start), Seq: w.arrivals, Step: w.step, Inc: w.inc, Gid: gid, Msg: msg, Time: time.Since(w.start)})
 	w.asyncLog = append(w.asyncLog, "err")
 }
 
@@ -997,7 +1000,16 @@ func (w *World) checkInvariants() {
 		return
 	}
 	if len(w.Panics) > 0 {
-		w.Violation = &Violation{Class: "worker-panic", Detail: w.Panics[0], Step: w.step}
+		v := &Violation{Class: "worker-panic", Detail: w.Panics[0], Step: w.step}
+		if w.PanicSig != nil {
+			v.Sig = w.PanicSig(w)
+			v.Prop = w.PanicProp
+		}
+		if v.Prop != "" && w.Known(v) {
+			w.Panics = nil // a listed finding: keep looking for other violations
+			return
+		}
+		w.Violation = v
 		return
 	}
 	for _, inv := range w.Invariants {
